@@ -99,7 +99,8 @@ pub fn visit_pw<V: PwVisitor>(spec: &PwSpec, v: &mut V) -> V::Out {
 
 pub fn pw_spec(max_len: usize) -> BoxedStrategy<PwSpec> {
     let kind = prop_oneof![5 => Just(0u8), 1 => Just(1u8), 1 => Just(2u8), 1 => Just(3u8), 1 => Just(4u8)];
-    (kind, any::<bool>(), gen::ends(max_len, false), gen::ends(max_len, true), vec(gen::moderate(20), 7))
+    let long = (max_len * 5).max(100);
+    (kind, any::<bool>(), gen::ends_long(max_len, long, false), gen::ends(max_len, true), vec(gen::moderate(20), 7))
         .prop_map(|(kind, positive, e_any, e_pos, pool)| {
             let ends = if positive && kind >= 3 { e_pos } else { e_any };
             PwSpec { kind, ends: ends.into_iter().map(B).collect(), pool: pool.into_iter().map(B).collect() }
